@@ -110,6 +110,13 @@ def known_class(ctx, ex, it):
             if any(len(v) > 1 and any(k == "inline" for k, _ in v) for v in names.values()) and \
                     ("missing field" in err or "unknown field" in err or "invalid type" in err):
                 return f
+            # exact form of the class (hook `verif::take_name_reuse`): while this document was converted,
+            # assign_type resolved a named type to an EXISTING type of that name although the two differ
+            # (derived names of inline enums / objects under properties, tuple items, variants …)
+            reuse = (ex.world.gen[it["m"]] or {}).get("name_reuse") or []
+            if reuse and ("missing field" in err or "unknown field" in err or "invalid type" in err or
+                          "unknown variant" in err or "did not match any variant" in err):
+                return f
         if cls == "internal-document-read-as-adjacent":
             if ent.get("kind") == "enum" and ent.get("tag", {}).get("k") == "adjacent":
                 content = ent["tag"]["content"]
@@ -250,6 +257,16 @@ def run(ctx):
         res = covers_eval("c02cov", [ex.docs[i] if i in sup_ids else None for i in range(len(ex.docs))][:0] or ex.docs,
                           [ex.dumps.get(i) if i in sup_ids else None for i in range(len(ex.docs))])
         failed = [(i, n) for (i, n), r in res.items() if not r]
+        # documents in which assign_type reused a name for a DIFFERENT type (finding C02-F3, exact form via
+        # the name_reuse hook): the validator rightly answers false there; reported as the known finding
+        reused = [(i, n) for (i, n) in failed if (ex.world.gen[i] or {}).get("name_reuse")]
+        f3 = [f for f in ctx.findings_for() if f.get("class") == "type-name-reuse"]
+        if reused and f3:
+            failed = [x for x in failed if x not in reused]
+            sup_ids = [i for i in sup_ids if not (ex.world.gen[i] or {}).get("name_reuse")]
+            ctx.known_finding(f3[0]["id"], "%s: validator false on %d definitions of documents with a name-reuse event "
+                              "(e.g. type %s)" % (f3[0]["id"], len(reused),
+                                                  ex.world.gen[reused[0][0]]["name_reuse"][0].get("name")))
         ctx.coverage["validator_evaluations"] = len(res)
         ctx.oblige("validator: covers = true for all %d definitions of %d supported-grammar documents" % (
             len(res), len(sup_ids)), not failed,
